@@ -119,6 +119,9 @@ ROUND7 = {
  "C14": "Every key-value command form between a LOCK and an UNLOCK without LOCK_ID on one text connection.",
  "C17": "An enumeration fills one key with 120..248 holders, releases them first-in first-out (every record is promoted to current holder and released as such, also those kept in the map-indexed form of the holder queue), lets one LockId come back and compares the reported counts with a census at every stage.",
 }
+ROUND7["C02"] = "The ownership alphabet includes UNLOCKs carrying both the unlock-first and the cancel-wait flag."
+ROUND7["C05"] = "A bulk enumeration puts up to 1800 (thorough: 4000) waiters on one deadline second, cancels them in two batches (the long-wait table is compacted in place and then recycled) and sends a second wave."
+ROUND7["C09"] = "One workload makes the sync bound the last record of a log file whose hold expires while the follower's started frame is late and the leader already writes into the next file."
 for k, v in ROUND7.items():
     CHECKS[k]["text"] += " " + v
 CHECKS["C13"]["technique"] += " + happens-before (vector-clock) race check on instrumented map accesses in every explored execution"
